@@ -42,7 +42,8 @@ CLAIMED = {
                 "real library vs the model on the whole grid. Oracle: whole grid × optional/required, 10 schema-argument variants × fresh / "
                 "reused handle × schema id, 8 record shapes in two-record batches; accepted → read back exactly through same and fresh "
                 "handle incl. per-column filtered scans; rejected → snapshots, rows and reachable files unchanged. all_queued_appends_committed / queued_appends_exact — every file of every append queued in one transaction reaches the commit in queue order (TxOps model of the partition loop; witness last_append_only_loses_rows; tie tx.partition); oracle also: large appends (999–4321 rows), multi-operation transactions, pre-built files with the same base name / offered again after a rejection, the handle's state after a rejected append."
-                " A batch rejected because of a later member leaves nothing queued: committing the same transaction afterwards publishes none of its files.",
+                " A batch rejected because of a later member leaves nothing queued: committing the same transaction afterwards publishes none of its files."
+                " Equal base names in two directories through every read path; format tags other than parquet.",
         "design_ref": "§6 C11",
         "note": "Values are abstracted to value classes; what 'exactly as supplied up to the declared type's representation' means per type is "
                 "the harness function represents() (tz-aware datetimes keep their instant; bytes↔str, int→float when exactly representable). "
@@ -58,7 +59,8 @@ CLAIMED = {
                 "missing → an older version is served), replayed on every read API. Tie/oracle: every file reachable from the current snapshot of "
                 "a 4-commit table × 12 damage classes + transient error × 7 read APIs/options on the real library; the damage class is judged by "
                 "an independent parse; observed outcome compared with rd.outcome."
-                " Snapshot-inspection getters (current_snapshot, snapshots, time_travel) among the read APIs; valid-JSON-but-not-a-manifest bytes.",
+                " Snapshot-inspection getters (current_snapshot, snapshots, time_travel) among the read APIs; valid-JSON-but-not-a-manifest bytes."
+                " A checksum-less pre-built file next to checksummed ones; content changing between two reads of one scan.",
         "design_ref": "§6 C14",
         "note": "Parsers (json, fastavro, pyarrow) are classified by observation; damages that still parse with different content on metadata-plane "
                 "files (no checksum there) and unverified altered data bytes are outside the statement.",
@@ -73,7 +75,8 @@ CLAIMED = {
                 "Oracle on a REAL filesystem with symlinks inside the root pointing inside and outside, a sibling-prefix directory and the root "
                 "reached directly or through a symlink: exhaustive path grammar × 15 read + 5 mutating entry points under a Python audit hook "
                 "(every open / listdir / remove / rename / mkdir resolved with realpath) + fingerprint of a sentinel tree outside the root."
-                " S3: s3_key_under_prefix, s3_key_literal (every requested key lies under the table prefix, nothing is normalised), normalised_key_escapes (witness); tie path.s3key; every S3 entry point on an exhaustive path grammar with two tables sharing a bucket. Escaping oracle decided by the operating system's meaning of the path (realpath): '<symlink>/..' spellings and absolute paths through inside symlinks must be rejected.",
+                " S3: s3_key_under_prefix, s3_key_literal (every requested key lies under the table prefix, nothing is normalised), normalised_key_escapes (witness); tie path.s3key; every S3 entry point on an exhaustive path grammar with two tables sharing a bucket. Escaping oracle decided by the operating system's meaning of the path (realpath): '<symlink>/..' spellings and absolute paths through inside symlinks must be rejected."
+                " s3:// spellings; write_data_file among the mutating entry points; deleting the last entry under a bare root.",
         "design_ref": "§6 C17",
         "note": "Symlink resolution (os.path.realpath / the kernel's walk) is an assumed contract exercised on the real filesystem, not modelled; "
                 "TOCTOU is outside the quantifier; S3 keys are literal strings under the table prefix (modelled and tied).",
@@ -104,7 +107,8 @@ CLAIMED = {
                 "under strace (sees pyarrow's C++ parquet writes); the proved-sound Lean judge is evaluated on EVERY prefix of the REAL trace, "
                 "and each written file's event sequence is compared with the model's lowering. Witness examples show the judge rejecting a "
                 "missing file fsync, a missing directory fsync and a pointer written first. fsync_failure_no_flip — when the fsync of ANY referenced file fails (every number of files, every failing position) the commit trace contains no rename onto the pointer; checked on the library by failing the k-th file fsync of append / two-append / delete commits for every k."
-                " Object storage: every PUT of a commit broken once AFTER its body went out (a stream body is consumed): an acknowledged operation reaches only complete objects. Two threads through ONE Table object with overlapping commits judged at the second thread's pointer flip.",
+                " Object storage: every PUT of a commit broken once AFTER its body went out (a stream body is consumed): an acknowledged operation reaches only complete objects. Two threads through ONE Table object with overlapping commits judged at the second thread's pointer flip."
+                " write(2) taking part of the buffer; library environment switches discovered from the source pinned to falsy values; the commit after a transient directory-fsync failure; a caller-written pre-built file.",
         "design_ref": "§6 C16",
         "note": "Disk/kernel honour fsync (assumed). Pre-existing files are taken as durable; ancestor directories' durability is an assumption (§7).",
         "technique": "Lean 4 theorems on a power-loss model + a proved-sound judge run on real strace traces",
@@ -135,7 +139,8 @@ CLAIMED = {
                 "read's pointer-read positions on the flip timeline are fed to the reader model which must predict the result; oracle: result = "
                 "row multiset of one version current during the read (independent reader), per-handle order monotone, two-append transaction "
                 "visible all-or-nothing."
-                " Object storage: a reader reading after EVERY request of a commit, incl. a pointer PUT that lands while its answer is lost.",
+                " Object storage: a reader reading after EVERY request of a commit, incl. a pointer PUT that lands while its answer is lost."
+                " Two reads through one Table object with a commit between.",
         "design_ref": "§6 C02",
         "note": "Immutability/presence of files of versions that were ever current is C01/C05/C06/C09's business and is exercised here by the oracle.",
         "technique": "Lean 4 theorems over a pointer-timeline reader model + suffix-monotonicity in the OCC system; scheduled readers×writers",
@@ -148,7 +153,8 @@ CLAIMED = {
                 "collector under the scheduler, then repaired. Tie: real garbage_collect × 1–2 real transactions with aged data files, "
                 "rollbacks, at storage-operation granularity; the abstract trace replayed on the model must yield the same deleted set; oracle: "
                 "every file of every snapshot of the final metadata exists. prebuilt_unmarked_refuted — witness of the repaired defect c834a8f (a pre-built file queued without a marker is deleted and then committed); sweeps: whole collection after each gated operation of a commit at grace 0 (append, partial delete, failed marker write, pre-built file flat / nested), of a retrying commit, two collections around one long transaction, aged markers."
-                " A reused Transaction object queuing the same pre-built file again after a rollback; a collection right after the data-file write.",
+                " A reused Transaction object queuing the same pre-built file again after a rollback; a collection right after the data-file write."
+                " late_adoption_refuted — Lean witness of the OPEN finding: a transaction that starts during the run and adopts an old pre-built file (excluded from gc_concurrent_safe by hypothesis; swept on the real code: whole transaction after each gated op of the collector).",
         "design_ref": "§6 C06",
         "note": "Assumes the grace period exceeds the run and a live transaction is younger than the abandonment timeout; file names are fresh.",
         "technique": "Lean 4 invariant over the collector×transactions transition system + trace replay of scheduled real executions",
@@ -164,7 +170,8 @@ CLAIMED = {
                 "GarbageCollector.collect runs on a fully scripted environment realising random abstract inputs and must agree with gc.run; "
                 "oracle: every single fault at every storage call of a real run, every corruption class of every reachable metadata-plane file, "
                 "escaping listings, marker faults."
-                " Error classes FileNotFoundError / PermissionError / TimeoutError on marker reads; corruption classes that are VALID JSON but not a file of the kind ('{}', '[]', 'null', metadata JSON without its snapshots / current-snapshot fields).",
+                " Error classes FileNotFoundError / PermissionError / TimeoutError on marker reads; corruption classes that are VALID JSON but not a file of the kind ('{}', '[]', 'null', metadata JSON without its snapshots / current-snapshot fields)."
+                " Directory scans failing below the storage interface (os.scandir); a nested pre-built file held by the open transaction; every fault on an input of the reachability decision must raise.",
         "design_ref": "§6 C07",
         "note": "Fault = exception before effect on the local backend; parser result classes (missing/truncated/garbage/empty/transient) observed.",
         "technique": "Lean 4 theorems over the collector's decision function (all fault combinations) + correspondence on scripted environments",
@@ -178,7 +185,8 @@ CLAIMED = {
                 "replaced; witnesses for the two windows that need the lock. Tie: real create_table / load_table / first-append callers run as "
                 "threads under the scheduler on local and in-memory CAS S3 from four initial states; every trace accepted by create.trace; "
                 "oracle on identity, rows and persisted schema; schema-persistence semantics checked directly."
-                " Pointer lost on a table whose version number has two digits (numeric, not lexicographic, recovery).",
+                " Pointer lost on a table whose version number has two digits (numeric, not lexicographic, recovery)."
+                " Creators bringing different schemas; aftermath: pointer lost after the race, schema-less append through every handle.",
         "design_ref": "§6 C18",
         "note": "Recovery's mtime tie-break is modelled as write order; a first appender's commit itself is C01's protocol.",
         "technique": "Lean 4 invariants over the creation transition system + trace acceptance of scheduled real executions",
@@ -192,7 +200,8 @@ CLAIMED = {
                 "owned_object_persists_refuted — the machine-checked witness of the release-spans-takeover defect, replayed on the real "
                 "S3LockProvider (known finding). Tie: real FileLock instances on the REAL kernel and the real S3LockProvider on the in-memory S3 "
                 "run under the scheduler with a virtual clock and are compared step by step with lock.frun / lock.srun; 8-process stress. s3_timeout_bound — a contender blocked for its whole timeout gets TimeoutError in [timeout, timeout + one poll interval] for every sequence of jitter draws (pollLoop tied to the real acquire loop via lock.poll); unclamped_backoff_overshoots — witness for an unclamped exponential back-off. Open()→flock() gap sweep and lock-file identity on the real kernel."
-                " dead_holder_taken_over / live_holder_not_taken_over (one undisturbed acquisition pass takes a lapsed lock over, and leaves a live one alone); is_held across a takeover with scheduling points between calls that make no request; environment-flag capitalisation selects the same lock provider.",
+                " dead_holder_taken_over / live_holder_not_taken_over (one undisturbed acquisition pass takes a lapsed lock over, and leaves a live one alone); is_held across a takeover with scheduling points between calls that make no request; environment-flag capitalisation selects the same lock provider."
+                " Process time zones for lease arithmetic; wall clock stepping under a blocked FileLock acquirer.",
         "design_ref": "§6 C19",
         "note": "Kernel flock semantics are an assumed contract sampled every run on the real kernel; the S3 heartbeat thread is replaced by a "
                 "schedulable renew event; the polling (non-CAS) provider is documented best-effort and not claimed.",
@@ -208,7 +217,8 @@ CLAIMED = {
                 "Tie: real committers run as threads under a deterministic scheduler at storage-operation granularity (local and in-memory "
                 "CAS S3, shared and separate handles, frozen/coarse/real clocks); every trace must be accepted step by step by the Lean "
                 "transition system (values read, stamps written, outcomes) and the final table must be serializable w.r.t. acknowledgements."
-                " The virtual clock is bound in every datashard module that names `datetime` (a change that derives ids from the clock is exercised under frozen clocks).",
+                " The virtual clock is bound in every datashard module that names `datetime` (a change that derives ids from the clock is exercised under frozen clocks)."
+                " Committers meeting in one manifest; append+expire in one transaction; duplicate-listing oracle.",
         "design_ref": "§6 C01",
         "note": "Exclusive-lock hypothesis for the local backend is C19's theorem + the kernel's flock contract. Manifest-level content of commits is "
                 "checked by the oracle (independent reader), the model abstracts a version to (stamp, applied transactions).",
@@ -222,7 +232,8 @@ CLAIMED = {
                 "the defect found (validation read ≠ ETag read), replayed on the library with a no-exclusion lock, then repaired. Tie: scheduled "
                 "real committers on the in-memory CAS S3 with a free lock / the real CAS lock / injected lease lapses; trace acceptance + "
                 "serializability oracle."
-                " One writer object committing twice in a row × the other committer's whole commit before each request; first accesses to a table in the legacy pointer format.",
+                " One writer object committing twice in a row × the other committer's whole commit before each request; first accesses to a table in the legacy pointer format."
+                " A lock taken over and released again (nothing committed) before the superseded committer's fence.",
         "design_ref": "§6 C08",
         "note": "S3 conditional-PUT semantics are those of harness/fakes3.py; the lock object's own protocol is C19's subject.",
         "technique": "Lean 4 invariant over the CAS transition system with an arbitrary lock + trace acceptance of scheduled real executions",
@@ -236,7 +247,8 @@ CLAIMED = {
                 "mlog_bounded; rewrite_preserves_origin + delete-exactness; last_seq_monotone. Correspondence: the real repoint / retention / "
                 "expiry / delete_snapshot / metadata-log code vs the model on all forests ≤3 (4 sampled) and on whole real-table histories "
                 "step by step; an independent invariant checker reads the JSON and manifests after every step. all_queued_deletes_applied / queued_deletes_exact / one_commit_shape — every path of every delete queued in one transaction is deleted, nothing else, and a transaction is committed in one shape (tx.partition tie); mlog_trimmed for a lowered bound; oracle also: retried commits, commits under a stale pointer, rewrite of a rewritten manifest, deleting current / oldest / interior snapshots then committing, retention under a clock stepping back, any-clock timestamp lookups."
-                " A data file listed by two manifests (queued again through the file-level API) is deleted from both.",
+                " A data file listed by two manifests (queued again through the file-level API) is deleted from both."
+                " Pre-built pairs with equal base names and both spellings of a table-relative path; one of them deleted.",
         "design_ref": "§6 C15",
         "note": "Snapshot ids assumed fresh (random 63-bit ids). Manifest-rewrite model is at entry level; Avro encoding observed via the independent reader.",
         "technique": "Lean 4 invariant by induction over operations (WF) + algebraic theorems; model/implementation correspondence on histories",
@@ -249,7 +261,8 @@ CLAIMED = {
                 "Lean (norm_agrees_refuted) and was replayed on the real collector, then repaired. Correspondence: _normalize_path and "
                 "_gc_prefix vs the model; oracle: real histories at 12 location spellings (incl. d, data, m, metadata, symlink, S3 prefixes) "
                 "with aged files and open transactions, deleted set vs independently computed reachability over ALL retained snapshots."
-                " Marker naming (model Marker): queued_files_all_covered, separated_names_register_each, digest_markers_register_both (for any digest telling the paths apart), basename_markers_skip_second (witness), library_marker_names_unchanged; ties marker.name / marker.register against _marker_path_for and the markers a real append_files batch writes. Live transactions holding pre-built files (same base name in two partition directories) across collections.",
+                " Marker naming (model Marker): queued_files_all_covered, separated_names_register_each, digest_markers_register_both (for any digest telling the paths apart), basename_markers_skip_second (witness), library_marker_names_unchanged; ties marker.name / marker.register against _marker_path_for and the markers a real append_files batch writes. Live transactions holding pre-built files (same base name in two partition directories) across collections."
+                " transactions_do_not_share_markers (per-transaction salted digests), path_only_markers_are_shared (witness). Histories with non-canonical spellings of pre-built paths and with two live transactions holding one pre-built file.",
         "design_ref": "§6 C05",
         "note": "The collector's reachability walk and marker loading are exercised end to end here and modelled step-wise under C07/C06; "
                 "the for-all-histories store invariant (history_wf) is not proved in Lean yet — covered by the history oracle.",
@@ -262,7 +275,8 @@ CLAIMED = {
                 "version ≥ it, and the pointer missing/unparseable/dangling/current, opening resolves to it; never_reinit — 'no table' is "
                 "answered only when a successful listing holds no metadata version. The unrestricted resolution statement is refuted in Lean "
                 "(uncommitted higher version; stale pointer) and both witnesses are replayed on the real library as known findings. "
-                "Correspondence: _parse_hint_content on a byte grammar, _recover_version_from_files and _current_version_info on stub storage.",
+                "Correspondence: _parse_hint_content on a byte grammar, _recover_version_from_files and _current_version_info on stub storage."
+                " Conditional pointer PUT answered precondition-failed (S3).",
         "design_ref": "§6 C10",
         "note": "Code points abstracted to classes measured with Python's own str methods; real-table histories are local-filesystem only.",
         "technique": "Lean 4 theorems over a code-point-class model of the parser and the recovery fold + correspondence on a byte grammar",
@@ -274,7 +288,8 @@ CLAIMED = {
                 "retry_exhausted / attempts_bounded for every failure sequence and retry budget; listing_agrees — S3 listing under dir+'/' "
                 "equals the local directory listing for every file set (string-level proof on '/'-joined keys). Correspondence: S3RangeFile, "
                 "retry_with_backoff and list_files vs the model on enumerated programs / attempt sequences / twin-backend traces each run."
-                " Uploads broken after the body went out; IncompleteRead / read-timeout / connection-closed body failures; connection-level exceptions without an HTTP answer.",
+                " Uploads broken after the body went out; IncompleteRead / read-timeout / connection-closed body failures; connection-level exceptions without an HTTP answer."
+                " Page requests of token-driven listing loops.",
         "design_ref": "§6 C20",
         "note": "S3 is replaced by harness/fakes3.py (strong consistency, atomic PUT, exact ranged GET = the assumed contract); "
                 "CPython BufferedReader observed, not proved; directory existence of emptied local directories is outside the contract.",
@@ -287,7 +302,8 @@ CLAIMED = {
                 "returns; parse_table_correct on the operator tables regenerated from the source each run; compile_* — malformed shapes raise. "
                 "The models are compared with the real _build_condition/parse_filter_dict on exhaustive small domains every run, and every "
                 "scan API × option × projection is compared with an independent SQL evaluator on real tables."
-                " Tables in one process alternate their field-id numbering (same schema id, names, order).",
+                " Tables in one process alternate their field-id numbering (same schema id, names, order)."
+                " Every third table holds pre-built files with equal base names; not_in sets holding a file's min and max.",
         "design_ref": "§6 C12",
         "note": "Values abstracted to NULL/NaN/Int; pyarrow compute kernels observed each run, not proved; NaN inside value sets unspecified; "
                 "NULLs in value sets dropped (library contract). Cross-type literals that every API rejects are treated as malformed.",
@@ -298,7 +314,8 @@ CLAIMED = {
                 "by its computed bounds holds no SQL-TRUE row; codec_roundtrip for the typed bound encoding; inWalk_eq for the lazy any(). "
                 "The model of _compute_column_bounds/_file_may_match/_encode_bound is compared with the real functions on an exhaustive "
                 "small domain every run, and real multi-file tables are scanned with and without pruning."
-                " Float32 columns: bounds describe the STORED value (0.1f, 0.7f, 2^24+1) not the Python float handed in.",
+                " Float32 columns: bounds describe the STORED value (0.1f, 0.7f, 2^24+1) not the Python float handed in."
+                " A binary column between bounded ones; strings whose deciding character is outside the BMP.",
         "design_ref": "§6 C13",
         "note": "Values abstracted to NULL/NaN/Int (order-isomorphic domains); pyarrow min/max and is_in semantics observed, not proved. "
                 "Cross-type literals (float32 narrowing) are outside the model and covered by the end-to-end oracle only.",
